@@ -284,6 +284,8 @@ PROPS['C14'] = {
                        [H(f'c14_translate_polyn_{n}', 'poly', f'length {n}', False, ['src/poly.rs: impl Translate for PolyN :: translate']) for n in (0, 1, 3)] +
                        [H(f'c14_mulassign_poly{k}', 'poly', SMALL + '; scalar in {0, -1, 2, 0.5, 3}', False,
                           [f'src/poly.rs: impl MulAssign<f64> for Poly{k} :: mul_assign']) for k in range(0, 9)] +
+                       [H(f'c14_mulassign_full_poly{k}', 'poly', 'any finite coefficients; scalar in {2, -1}', False,
+                          [f'src/poly.rs: impl MulAssign<f64> for Poly{k} :: mul_assign']) for k in range(1, 9)] +
                        [H('c14_log_wrapper', 'log_poly', None, True, ['src/log_poly.rs: Log<T>::{mul, mul_assign, translate}']),
                         H('c14_intoflog_wrapper', 'log_poly', SMALL + '; scalar in {2, -1, 0.5, 0}', False, ['src/log_poly.rs: IntOfLog<T>::{add, neg, mul, mul_assign, translate}']),
                         H('c14_quartic_add_sub', 'log_poly', SMALL, False, ['src/log_poly.rs: IntOfLogPoly4::{add, sub, translate} and the by-reference add/sub'])],
